@@ -13,7 +13,7 @@ not a hang.
 import os
 
 from mc import battery, env, iolog, sched, seqx, world
-from mc.battery import Exc, call, p64
+from mc.battery import Exc, call, p64, u64
 from mc.refmodel import Z64
 
 MOD = 'checks.c05_abort'
@@ -172,6 +172,33 @@ def run_victim(w, v, res):
         abort()
         return 'fault-%s-%s' % (inj[0], os.path.basename(inj[1]).replace(
             'Data.fs', 'D')), viol
+    if kind == 'finish-fault':
+        # the failure strikes inside tpc_finish: the transaction may end up
+        # committed or not, but nothing in between (judged by the caller)
+        _, n, partial = v
+        r = call(s.tpc_begin, t)
+        if not isinstance(r, Exc):
+            r = do_stores(w, t, 2)
+        if not isinstance(r, Exc):
+            r = call(s.tpc_vote, t)
+        if isinstance(r, Exc):
+            viol.append(('step', 'finish-victim:%s' % r.name,
+                         dict(victim=v, got=repr(r))))
+            abort()
+            return 'finish-fault-na', viol
+        if n is None:
+            r = call(s.tpc_finish, t)       # the twin: no failure
+            return 'finish-twin', viol
+        iolog.LOG.arm(n, partial)
+        r = call(s.tpc_finish, t)
+        inj = iolog.LOG.injected
+        iolog.LOG.disarm()
+        if inj is None:
+            return None, viol
+        if not isinstance(r, Exc):
+            viol.append(('fault', 'swallowed-in-finish:%s' % inj[0],
+                         dict(victim=v, injected=repr(inj)[:200])))
+        return 'finish-fault-%s' % inj[0], viol
     if kind == 'quota':
         r = call(s.tpc_begin, t)
         if not isinstance(r, Exc):
@@ -356,9 +383,93 @@ def dictdiff(a, b):
     return out[:5]
 
 
+def judge_finish_fault(cfg, hist, spec, v, res):
+    """A failure inside tpc_finish.  After reopening, the storage answers
+    either as before the victim or as a twin in which the same victim
+    finished without a failure; the data file is byte for byte one of the
+    two; the storage (which closes itself) holds no lock: it can be reopened
+    and the next transaction commits."""
+    w = build(cfg, hist, spec)
+    try:
+        pre_obs = observe(w)
+        with open(w.path, 'rb') as f:
+            pre_bytes = f.read()
+        clock = env.CLOCK.now
+        label, viol = run_victim(w, v, res)
+        if label is None or label == 'finish-fault-na':
+            return label, viol
+        try:
+            w.storage.close()
+        except Exception:
+            pass
+        r = call(w.open)
+        res.clause('C05.finish')
+        if isinstance(r, Exc):
+            viol.append(('finish', '%s:reopen:%s' % (label, r.name),
+                         dict(victim=v, got=repr(r))))
+            return label, viol
+        post_obs = call(observe, w)
+        with open(w.path, 'rb') as f:
+            post_bytes = f.read()
+    finally:
+        iolog.LOG.disarm()
+        w2 = w
+    try:
+        # the twin
+        t = build(cfg, hist, spec)
+        try:
+            env.CLOCK.now = clock
+            run_victim(t, ('finish-fault', None, 0), res)
+            t.storage.close()
+            t.open()
+            twin_obs = observe(t)
+            with open(t.path, 'rb') as f:
+                twin_bytes = f.read()
+        finally:
+            t.close()
+        if isinstance(post_obs, Exc):
+            viol.append(('finish', '%s:%s' % (label, post_obs.name),
+                         dict(victim=v, got=repr(post_obs))))
+        elif post_obs == pre_obs and post_bytes == pre_bytes:
+            res.outcome(label + ':absent')
+        elif post_obs == twin_obs and post_bytes == twin_bytes:
+            res.outcome(label + ':committed')
+        else:
+            which = 'answers' if post_obs not in (pre_obs, twin_obs) \
+                else 'file'
+            viol.append(('finish', '%s:neither-old-nor-new:%s' % (
+                label, which), dict(victim=v, size=len(post_bytes),
+                                    old=len(pre_bytes), new=len(twin_bytes))))
+            return label, viol
+        # the next transaction commits
+        s = w2.storage
+        t2 = world.TMD(b'after', b'next')
+        env.CLOCK.now += 1
+        res.clause('C05.next')
+        try:
+            r = call(s.tpc_begin, t2)
+            if not isinstance(r, Exc):
+                r = call(s.store, p64(V_OID + 5), Z64, vrec(9), '', t2)
+            if not isinstance(r, Exc):
+                r = call(s.tpc_vote, t2)
+            if not isinstance(r, Exc):
+                r = call(s.tpc_finish, t2)
+        except sched.DeadlockError as e:
+            viol.append(('deadlock', label, dict(victim=v, error=str(e))))
+            return label, viol
+        if isinstance(r, Exc):
+            viol.append(('next', '%s:%s' % (label, r.name),
+                         dict(victim=v, got=repr(r))))
+        return label, viol
+    finally:
+        w2.close()
+
+
 def judge(cfg, hist, spec, v, res):
     """Build h, snapshot, run victim, compare, follow up.  Returns
     (label, violations)."""
+    if v[0] == 'finish-fault':
+        return judge_finish_fault(cfg, hist, spec, v, res)
     w = build(cfg, hist, spec)
     try:
         if v[0] == 'rm':
@@ -462,6 +573,20 @@ def node(w, hist, cfg, res):
             i += 1
             if i > 200:
                 break
+        # ... and every raw op of tpc_finish
+        i = 0
+        while i < 20:
+            label = None
+            for p in partials:
+                lab, vv = judge(cfg, hist, spec, ('finish-fault', i, p), res)
+                if lab is None:
+                    break
+                label = lab
+                n += 1
+                viol += vv
+            if label is None:
+                break
+            i += 1
     for v in vs:
         lab, vv = judge(cfg, hist, spec, v, res)
         n += 1
@@ -476,6 +601,257 @@ def node(w, hist, cfg, res):
             seen.add((c, s))
             out.append((c, s, d))
     return n, True, out
+
+
+# ------------------------------------------------- wrapper storages
+
+WRAPPERS = ('DMF', 'DFM', 'DMM', 'BF', 'BM')
+
+
+def mk_wrapper(kind, d):
+    FS = env.mod('ZODB.FileStorage.FileStorage').FileStorage
+    MS = env.mod('ZODB.MappingStorage').MappingStorage
+    DS = env.mod('ZODB.DemoStorage').DemoStorage
+    BS = env.mod('ZODB.blob').BlobStorage
+    if kind == 'DMF':
+        return DS(base=MS('b'), changes=FS(os.path.join(d, 'C.fs')))
+    if kind == 'DFM':
+        return DS(base=FS(os.path.join(d, 'B.fs')), changes=MS('c'))
+    if kind == 'DMM':
+        return DS(base=MS('b'), changes=MS('c'))
+    if kind == 'BF':
+        return BS(os.path.join(d, 'blobs'), FS(os.path.join(d, 'D.fs')))
+    if kind == 'BM':
+        return BS(os.path.join(d, 'blobs'), MS('m'))
+    raise ValueError(kind)
+
+
+def wrapper_victims(kind):
+    blob = kind[0] == 'B'
+    vs = []
+    for phase in ('begin', 'store', 'vote'):
+        vs.append(('abort', phase, False))
+        if blob and phase != 'begin':
+            vs.append(('abort', phase, True))
+    for f in ('user', 'desc', 'ext'):
+        vs.append(('longmeta', f))
+    vs.append(('conflict',))
+    for when in ('idle', 'store', 'vote'):
+        vs.append(('stray', when, False))
+        if blob and when != 'idle':
+            vs.append(('stray', when, True))
+    return vs
+
+
+def wrapper_scenario(kind, v):
+    """One victim on a wrapper storage (demo storage layerings, the blob
+    wrapper): afterwards the storage answers as before, its files are as
+    before, and the next transaction commits.  A stray call with another
+    transaction must not disturb the transaction in progress, which is then
+    finished and must be complete."""
+    from mc import hclasses
+    env.reset_globals()
+    sched.install_locks()
+    d = env.new_dir('wr')
+    viol = []
+    s = mk_wrapper(kind, d)
+    blob = kind[0] == 'B'
+    label = ':'.join(str(x) for x in v)
+
+    def bad(c, sg, det):
+        viol.append((c, 'wrapper:%s:%s' % (kind, sg), dict(det, victim=v)))
+
+    def blobfile(n):
+        p = os.path.join(d, 'in%d.tmp' % n)
+        with open(p, 'wb') as f:
+            f.write(b'blob-bytes-%d' % n)
+        return p
+
+    def commit(items, txn=None, finish=True):
+        """items: [(oid, serial, n, is_blob)]"""
+        t = txn or world.TMD(b'u', b'd')
+        env.CLOCK.now += 1
+        s.tpc_begin(t)
+        for oid, serial, n, isb in items:
+            if isb:
+                s.storeBlob(oid, serial, hclasses.mkrec('P', n), blobfile(n),
+                            '', t)
+            else:
+                s.store(oid, serial, hclasses.mkrec('P', n), '', t)
+        s.tpc_vote(t)
+        if finish:
+            return s.tpc_finish(t)
+        return t
+
+    def observe():
+        out = {}
+        for o in (1, 2, 3, 7, 8):
+            r = call(s.load, p64(o))
+            out[('load', o)] = r
+            if blob and not isinstance(r, Exc):
+                lb = call(s.loadBlob, p64(o), r[1])
+                if not isinstance(lb, Exc):
+                    with open(lb, 'rb') as f:
+                        lb = f.read()
+                out[('blob', o)] = lb
+        out['last'] = call(s.lastTransaction)
+        files = {}
+        for k2, v2 in iolog.snapshot(d).items():
+            if k2.endswith(('.lock', '.tmp', '.index')) or '/tmp/' in k2:
+                continue
+            if v2 is None:
+                continue    # a directory (an empty one may stay behind)
+            files[k2] = v2
+        out['files'] = files
+        return out
+    try:
+        tid1 = commit([(p64(1), Z64, 1, False), (p64(2), Z64, 2, blob)])
+        pre = observe()
+        t = world.TMD(b'victim', b'doomed')
+        other = world.TMD(b'other')
+        env.CLOCK.now += 1
+        kindv = v[0]
+        try:
+            if kindv == 'abort':
+                _, phase, withblob = v
+                s.tpc_begin(t)
+                if phase in ('store', 'vote'):
+                    s.store(p64(7), Z64, hclasses.mkrec('P', 7), '', t)
+                    if withblob:
+                        s.storeBlob(p64(8), Z64, hclasses.mkrec('P', 8),
+                                    blobfile(8), '', t)
+                        s.storeBlob(p64(2), tid1, hclasses.mkrec('P', 22),
+                                    blobfile(22), '', t)
+                if phase == 'vote':
+                    s.tpc_vote(t)
+                s.tpc_abort(t)
+            elif kindv == 'longmeta':
+                big = b'x' * 65536
+                kw = dict(user=b'u', desc=b'd', ext=None)
+                if v[1] == 'ext':
+                    kw['ext'] = {'k': big}
+                else:
+                    kw[v[1]] = big
+                t = world.TMD(**kw)
+                r = call(s.tpc_begin, t)
+                if not isinstance(r, Exc):
+                    r = call(s.store, p64(7), Z64, hclasses.mkrec('P', 7),
+                             '', t)
+                if not isinstance(r, Exc):
+                    r = call(s.tpc_vote, t)
+                # a storage without a limit may accept it: then finish is
+                # not what this victim is about - abort in every case
+                s.tpc_abort(t)
+            elif kindv == 'conflict':
+                s.tpc_begin(t)
+                s.store(p64(7), Z64, hclasses.mkrec('P', 7), '', t)
+                r = call(s.store, p64(1), p64(12345), hclasses.mkrec('P', 9),
+                         '', t)
+                if not (isinstance(r, Exc) and r.name == 'ConflictError'):
+                    bad('step', 'conflict-not-raised', dict(got=repr(r)))
+                s.tpc_abort(t)
+            elif kindv == 'stray':
+                _, when, withblob = v
+                items = [(p64(7), Z64, 7, False)]
+                if withblob:
+                    items += [(p64(8), Z64, 8, True), (p64(2), tid1, 22,
+                                                       True)]
+                if when != 'idle':
+                    env.CLOCK.now += 1
+                    s.tpc_begin(t)
+                    for oid, serial, n, isb in items:
+                        if isb:
+                            s.storeBlob(oid, serial, hclasses.mkrec('P', n),
+                                        blobfile(n), '', t)
+                        else:
+                            s.store(oid, serial, hclasses.mkrec('P', n), '',
+                                    t)
+                    if when == 'vote':
+                        s.tpc_vote(t)
+                r = call(s.tpc_abort, other)
+                if isinstance(r, Exc):
+                    bad('wrongtxn', 'stray-abort:%s' % r.name,
+                        dict(got=repr(r)))
+                if when != 'idle':
+                    # the real transaction goes on and must be complete
+                    if when != 'vote':
+                        s.tpc_vote(t)
+                    s.tpc_finish(t)
+                    post = observe()
+                    for oid, serial, n, isb in items:
+                        o = u64(oid)
+                        r = post[('load', o)]
+                        if isinstance(r, Exc) or r[0] != hclasses.mkrec(
+                                'P', n):
+                            bad('wrongtxn', 'stray-abort-damaged-record',
+                                dict(oid=o, got=repr(r)[:100]))
+                        if isb and post.get(('blob', o)) != \
+                                b'blob-bytes-%d' % n:
+                            bad('wrongtxn', 'stray-abort-lost-blob-file',
+                                dict(oid=o, got=repr(post.get(
+                                    ('blob', o)))[:100]))
+                    pre = post
+        except sched.DeadlockError as e:
+            bad('deadlock', 'victim', dict(error=str(e)))
+            return label, viol
+        except Exception as e:      # noqa: B902
+            bad('step', 'victim:%s' % type(e).__name__,
+                dict(error=repr(e)[:200]))
+            try:
+                s.tpc_abort(t)
+            except Exception:
+                pass
+        post = call(observe)
+        if isinstance(post, Exc):
+            bad('mem', 'observe:%s' % post.name, dict(got=repr(post)))
+        elif post != pre:
+            q = [k2 for k2 in pre if pre[k2] != post.get(k2)]
+            bad('disk' if q == ['files'] else 'mem', 'changed:%s' % (
+                q[0] if isinstance(q[0], str) else q[0][0]),
+                dict(query=repr(q[0]), before=repr(pre[q[0]])[:200],
+                     after=repr(post.get(q[0]))[:200]))
+        # the next transaction commits
+        try:
+            r = call(commit, [(p64(3), Z64, 3, False)])
+        except sched.DeadlockError as e:
+            bad('deadlock', 'next', dict(error=str(e)))
+            return label, viol
+        if isinstance(r, Exc):
+            bad('next', 'commit:%s' % r.name, dict(got=repr(r)))
+        else:
+            r2 = call(s.load, p64(3))
+            if isinstance(r2, Exc) or r2[0] != hclasses.mkrec('P', 3):
+                bad('next', 'load', dict(got=repr(r2)[:100]))
+        return label, viol
+    finally:
+        try:
+            s.close()
+        except Exception:
+            pass
+        env.rm_dir(d)
+
+
+def wrapper_task(kind):
+    from mc import schedx
+    env.install()
+    res = schedx._new_res()
+    seen = set()
+    for v in wrapper_victims(kind):
+        label, viol = wrapper_scenario(kind, v)
+        res['cov']['traces_validated_against_impl'] += 1
+        res['cov']['states'] += 1
+        res['cov']['transitions'] += 4
+        res['cov']['evaluations'] += 1
+        res['outcomes']['wrapper:' + v[0]] = \
+            res['outcomes'].get('wrapper:' + v[0], 0) + 1
+        for c, sg, dd in viol:
+            fs = 'C05.%s:%s' % (c, sg)
+            if fs not in seen:
+                seen.add(fs)
+                res['violations'].append((
+                    'C05.' + c, fs, dict(wrapper=dict(
+                        kind=kind, victim=list(v))), dd, 1))
+    return res
 
 
 def run(rep, tier, seed, workers):
@@ -494,11 +870,17 @@ def run(rep, tier, seed, workers):
         'for every prefix history h up to the depth and every victim (abort '
         'after 0-2 stores / after vote with and without a read in between; '
         'one injected ENOSPC at the n-th raw write/truncate/create/fsync of '
-        'begin+2 stores+vote for every n, with torn variants; quota at 1st / '
+        'begin+2 stores+vote for every n, with torn variants; the same at '
+        'every raw op of tpc_finish, where the reopened storage must be '
+        'byte for byte the old one or the one a twin run without the '
+        'failure produces; quota at 1st / '
         '2nd store; conflict; 65536-byte user / description / extension; a '
         'second resource manager failing in tpc_begin / commit / tpc_vote '
         'sorted before / after the connection; wrong-transaction calls while '
-        'idle / after store / after vote): rebuild h on the real storage, run '
+        'idle / after store / after vote; the abort / over-long metadata / '
+        'conflict / stray tpc_abort victims also on three demo storage '
+        'layerings and the blob wrapper over a file and a mapping storage, '
+        'with blob stores): rebuild h on the real storage, run '
         'the victim, compare files and battery with the snapshot taken '
         'before it, commit a follow-up, reopen; evaluations = (h, victim) '
         'pairs; every pair is non-trivial')
@@ -509,16 +891,27 @@ def run(rep, tier, seed, workers):
         states += len(fps)
         rep.bounds['%s buf%s prefix depth' % (
             cfg['kind'], cfg.get('bufsize', '-'))] = depth
-    rep.cov['states'] = states
+    from mc import par
+    before = rep.cov.get('states', 0)
+    par.run_tasks([(MOD, 'wrapper_task', (k,)) for k in WRAPPERS], workers,
+                  rep, seed)
+    rep.bounds['wrapper storages'] = list(WRAPPERS)
+    rep.cov['states'] = states + rep.cov.get('states', 0) - before
     rep.cov['distinct_nontrivial'] = rep.cov['evaluations']
     rep.assumptions = [
         'the ops of the abort that follows an injected failure are not '
         'themselves failed under this oracle',
-        'a failure inside finish after the status flip is C01 territory']
+        'after a failure inside tpc_finish the transaction may be committed '
+        'or not (the storage closes itself); only atomicity, reopening and '
+        'the next commit are judged']
 
 
 def replay(w):
-    viol = seqx.replay_history(MOD, w['witness'])
+    if 'wrapper' in w['witness']:
+        wr = w['witness']['wrapper']
+        label, viol = wrapper_scenario(wr['kind'], tuple(wr['victim']))
+    else:
+        viol = seqx.replay_history(MOD, w['witness'])
     for v in viol:
         print(v)
     sigs = {'C05.%s:%s' % (c, s) for c, s, d in viol}
